@@ -476,3 +476,73 @@ CONTRACTS += [
                                  'forall(seq(idxStrlist), IDX_MOD)', 'is_list(fakeStrlist) and is_list(fakeSyms)']}},
         assigns=['self.fakeidx'], returns=Tup(SeqOf(), SeqOf(), SeqOf())),
 ]
+
+# ---------------------------------------------------------------- base type walk (C05)
+base_type = z3.Function('base_type', pv.PVArr, z3.StringSort(), z3.StringSort(), PV)
+base_sub = z3.Function('base_sub', pv.PVArr, z3.StringSort(), z3.StringSort(), PV)
+BASETYPES = ['Integer', 'Integer32', 'Bits', 'ObjectIdentifier', 'OctetString']
+
+
+def _syntax_of(arr, n, m):
+    sym = PV.dvals(arr[m])[n]
+    syn = PV.dvals(sym)[z3.StringVal('syntax')]
+    dflt = lift((('', ''), ''))
+    syn = z3.If(syn == pv.PAbsent, dflt, syn)
+    ty = PV.titems(syn)[0]
+    own = PV.titems(syn)[1]
+    return ty, own
+
+
+def _unfold_base(it, arr, n, m):
+    ty, own = _syntax_of(arr, n, m)
+    ty0, ty1 = PV.titems(ty)[0], PV.titems(ty)[1]
+    inbase = z3.Or(*[ty0 == lift(b) for b in BASETYPES])
+    rec_t = base_type(arr, PV.s(ty0), PV.s(ty1))
+    rec_s = base_sub(arr, PV.s(ty0), PV.s(ty1))
+    it.ctx.assume(base_type(arr, n, m) == z3.If(inbase, ty, rec_t))
+    merged_ = z3.If(PV.is_PList(rec_s),
+                    z3.If(PV.is_PList(own), PV.PList(z3.Concat(PV.litems(own), PV.litems(rec_s))), rec_s), own)
+    it.ctx.assume(base_sub(arr, n, m) == z3.If(inbase, own, merged_))
+
+
+def sp_BASE(it, args, kwargs):
+    """BASE(st, name, module): follow the parent types down to a base type (defining equation added per mention)"""
+    st, n, m = args
+    arr, nt, mt = _arr(st), pv.as_term_str(n), pv.as_term_str(m)
+    _unfold_base(it, arr, nt, mt)
+    return SAny(base_type(arr, nt, mt))
+
+
+def sp_BASESUB(it, args, kwargs):
+    """BASESUB: the enumeration / bits list along that chain: own list followed by the base's"""
+    st, n, m = args
+    arr, nt, mt = _arr(st), pv.as_term_str(n), pv.as_term_str(m)
+    _unfold_base(it, arr, nt, mt)
+    return SAny(base_sub(arr, nt, mt))
+
+
+B.SPEC_FUNCS['BASE'] = sp_BASE
+B.SPEC_FUNCS['BASESUB'] = sp_BASESUB
+
+ST_SYNTAX_WF = ['forall(self.symbolTable, lambda m, t: is_dict(t))',
+                'forall(lambda s_m, s_n: implies(s_m in self.symbolTable and s_n in self.symbolTable[s_m], '
+                'is_dict(self.symbolTable[s_m][s_n]) and implies("syntax" in self.symbolTable[s_m][s_n], '
+                'is_tuple(self.symbolTable[s_m][s_n]["syntax"]) and len(self.symbolTable[s_m][s_n]["syntax"]) == 2 and '
+                'is_tuple(self.symbolTable[s_m][s_n]["syntax"][0]) and len(self.symbolTable[s_m][s_n]["syntax"][0]) == 2 and '
+                'is_str(self.symbolTable[s_m][s_n]["syntax"][0][0]) and is_str(self.symbolTable[s_m][s_n]["syntax"][0][1]))))']
+
+CONTRACTS += [
+    Contract(
+        id='intermediate.getBaseType', file=FILE, func='IntermediateCodeGen.getBaseType', serves=['C05', 'C12'],
+        params={'self': SELF, 'symName': Str, 'module': Str},
+        requires=ST_SYNTAX_WF, returns=Tup(Any, Any),
+        ensures={
+            'base_type_of_the_chain': 'implies(not raised, same(result[0], BASE(self.symbolTable, symName, module)))',
+            'enumeration_own_then_base': 'implies(not raised, same(result[1], BASESUB(self.symbolTable, symName, module)))',
+            'unknown_module_or_symbol_is_an_error': 'implies(module not in self.symbolTable or '
+                                                    'symName not in self.symbolTable[module], raised)',
+            'table_unchanged': 'same(self.symbolTable, old(self.symbolTable))',
+        },
+        raises={'PySmiSemanticError': True},
+    ),
+]
